@@ -847,6 +847,11 @@ for (fi, ri), out in zip(lindex, louts):
                     key, what = "median:stalls-near-data-point", (
                         f"{name}: pixel {p}: geomed (implementation and model alike) stops at {v}, where the objective "
                         f"sum|z-d_i| can still be decreased by {pred:.3g} (optimality residual {resid:.3g})")
+                elif run["kernel"] == 7 and mre == "maxiter":
+                    key, what = "huber:max-iter-reached", (
+                        f"{name}: pixel {p}: the Huber fixed-point iteration (implementation and model alike) does not reach xtol within "
+                        f"maxiter=600 iterations on these delayed samples (tau = {run.get('tau')}): huber_m_estimate raises, the exception is "
+                        f"lost inside the prange kernel and the pixel is left unwritten (value {v}); sum psi_tau = {pred:.3g}")
                 else:
                     key, what = "das:" + name, (
                         f"{name}: pixel {p}: value {v} is not the geometric median / Huber location of the delayed "
